@@ -209,7 +209,9 @@ func Main(property string, parts []Part, fail func(string)) {
 			e.Emit(r)
 			return
 		}
-		fail("replay: unknown part " + rf.Part)
+		if os.Getenv("VERIF_REPLAY_LENIENT") == "" {
+			fail("replay: unknown part " + rf.Part)
+		}
 		return
 	}
 	for _, p := range parts {
